@@ -133,7 +133,7 @@ theorem emitTime_no_instr (prev time : Int32) : Out.instr ∉ emitTime prev time
   repeat' split
   all_goals simp
 
-theorem emitTime_no_label (prev time : Int32) (r : Bool) (i : Nat) : Out.label r i ∉ emitTime prev time := by
+theorem emitTime_no_label (prev time : Int32) (n : LabelName) : Out.label n ∉ emitTime prev time := by
   unfold emitTime
   repeat' split
   all_goals simp
@@ -145,7 +145,7 @@ theorem timesFrom_append_of_no_instr (os rest : List Out) (t : Int32) (h : Out.i
   | cons o os ih =>
     cases o with
     | instr => simp at h
-    | label r i => simp at h; simpa [timesFrom, stepOut] using ih t h
+    | label n => simp at h; simpa [timesFrom, stepOut] using ih t h
     | abs v => simp at h; simpa [timesFrom, stepOut] using ih v h
     | rel d => simp at h; simpa [timesFrom, stepOut] using ih (t + d) h
 
@@ -201,26 +201,26 @@ instruction is emitted, and the label (if any) sits exactly at its `time_label` 
 theorem emitLabels_spec (prev time : Int32) (lab : Option Label) (os : List Out)
     (h : emitLabels prev time lab = .ok os) :
     os.foldl stepOut prev = time ∧ Out.instr ∉ os ∧
-    labelTimesFrom prev os = (lab.map fun l => (l.isR, l.idx, l.time)).toList := by
-  have nolab : ∀ (p : Int32) (l : List Out), (∀ r i, Out.label r i ∉ l) → labelTimesFrom p l = [] := by
+    labelTimesFrom prev os = (lab.map fun l => (l.name, l.time)).toList := by
+  have nolab : ∀ (p : Int32) (l : List Out), (∀ n, Out.label n ∉ l) → labelTimesFrom p l = [] := by
     intro p l; induction l generalizing p with
     | nil => intro _; rfl
     | cons o os ih =>
       intro hl
       cases o with
-      | label r i => exact absurd (List.mem_cons_self) (hl r i)
-      | abs v => simp [labelTimesFrom]; exact ih _ (fun r i hr => hl r i (List.mem_cons_of_mem _ hr))
-      | rel d => simp [labelTimesFrom]; exact ih _ (fun r i hr => hl r i (List.mem_cons_of_mem _ hr))
-      | instr => simp [labelTimesFrom]; exact ih _ (fun r i hr => hl r i (List.mem_cons_of_mem _ hr))
-  have lab_after : ∀ (p : Int32) (l : List Out) (r : Bool) (i : Nat), (∀ r i, Out.label r i ∉ l) →
-      labelTimesFrom p (l ++ [.label r i]) = [(r, i, l.foldl stepOut p)] := by
-    intro p l r i; induction l generalizing p with
+      | label n => exact absurd (List.mem_cons_self) (hl n)
+      | abs v => simp [labelTimesFrom]; exact ih _ (fun n hr => hl n (List.mem_cons_of_mem _ hr))
+      | rel d => simp [labelTimesFrom]; exact ih _ (fun n hr => hl n (List.mem_cons_of_mem _ hr))
+      | instr => simp [labelTimesFrom]; exact ih _ (fun n hr => hl n (List.mem_cons_of_mem _ hr))
+  have lab_after : ∀ (p : Int32) (l : List Out) (n : LabelName), (∀ n, Out.label n ∉ l) →
+      labelTimesFrom p (l ++ [.label n]) = [(n, l.foldl stepOut p)] := by
+    intro p l n; induction l generalizing p with
     | nil => intro _; rfl
     | cons o os ih =>
       intro hl
-      have hl' : ∀ r i, Out.label r i ∉ os := fun r i hr => hl r i (List.mem_cons_of_mem _ hr)
+      have hl' : ∀ n, Out.label n ∉ os := fun n hr => hl n (List.mem_cons_of_mem _ hr)
       cases o with
-      | label r' i' => exact absurd (List.mem_cons_self) (hl r' i')
+      | label n' => exact absurd (List.mem_cons_self) (hl n')
       | abs v => simp [labelTimesFrom, stepOut]; simpa using ih v hl'
       | rel d => simp [labelTimesFrom, stepOut]; simpa using ih (p + d) hl'
       | instr => simp [labelTimesFrom, stepOut]; simpa using ih p hl'
@@ -240,28 +240,29 @@ theorem emitLabels_spec (prev time : Int32) (lab : Option Label) (os : List Out)
       · rename_i hp ht
         simp at h; subst h
         refine ⟨by simpa [stepOut] using emit_reproduces prev time, by simpa using emitTime_no_instr prev time, ?_⟩
-        rw [lab_after _ _ _ _ (emitTime_no_label prev time), emit_reproduces]; simp [ht]
+        rw [lab_after _ _ _ (emitTime_no_label prev time), emit_reproduces]; simp [ht]
       · simp at h
 
 /-- `generate_label_at_offset` only ever asks for the previous instruction's time (an `r` label,
-placed before the relative time increase) or the destination's time (placed after it) -/
+named after the previous instruction and placed before the relative time increase) or the
+destination's time (named after the destination, placed after it) -/
 theorem labelAt_time (pi ni : Nat) (prev next : Int32) (args : List Int32) :
-    (labelAt pi prev ni next args).time = (if (labelAt pi prev ni next args).isR then prev else next) ∧
-    ((labelAt pi prev ni next args).isR = true → prev < next ∧ ∀ a ∈ args, a = prev) := by
+    ((labelAt pi prev ni next args).name = .before pi ∧ (labelAt pi prev ni next args).time = prev ∧
+        prev < next ∧ ∀ a ∈ args, a = prev) ∨
+    ((labelAt pi prev ni next args).name = .dest ni ∧ (labelAt pi prev ni next args).time = next) := by
   unfold labelAt
   split
   · rename_i h
-    refine ⟨by simp, fun _ => ⟨h.1, ?_⟩⟩
+    refine .inl ⟨rfl, rfl, h.1, ?_⟩
     intro a ha
     have := List.all_eq_true.mp h.2.2 a ha
     simpa using this
-  · simp
+  · exact .inr ⟨rfl, rfl⟩
 
-/-- **the "impossible time for label" panic is unreachable** for labels produced by
-`generate_label_at_offset` from the same (prev, next) pair the emitter sees -/
-theorem label_always_placed (pi ni : Nat) (prev next : Int32) (args : List Int32) (site : String) :
-    emitLabels prev next (some (labelAt pi prev ni next args)) ≠ .panic site := by
-  have h := (labelAt_time pi ni prev next args).1
+/-- **the "impossible time for label" panic is unreachable** for a label that wants the previous
+instruction's time or the destination's time -/
+theorem label_always_placed (prev next : Int32) (l : Label) (h : l.time = prev ∨ l.time = next) (site : String) :
+    emitLabels prev next (some l) ≠ .panic site := by
   unfold emitLabels
   simp only
   split
@@ -269,11 +270,30 @@ theorem label_always_placed (pi ni : Nat) (prev next : Int32) (args : List Int32
   · split
     · simp
     · rename_i h1 h2
-      split at h <;> contradiction
+      rcases h with h | h <;> contradiction
 
-example : emitLabels 10 20 (some (labelAt 3 10 4 20 [10])) = .ok [.label true 3, .rel 10] := by decide
-example : emitLabels 10 20 (some (labelAt 3 10 4 20 [10, 20])) = .ok [.rel 10, .label false 4] := by decide
-example : emitLabels 10 20 (some ⟨false, 4, 15⟩) = .panic impossibleMsg := by decide
+/-- the label `generate_offset_labels` attaches to instruction `k`: its time is the time the
+emitter has before (`prevTimeAt`) or at (`timeAt`) that instruction; renaming the start label
+does not change the time -/
+theorem renameStart_time (k : Nat) (dt : Int32) (l : Label) : (renameStart k dt l).time = l.time := by
+  unfold renameStart; split <;> rfl
+
+theorem labelFor_time (is : List RInstr) (k : Nat) (l : Label) (h : labelFor is k = some l) :
+    l.time = prevTimeAt is k ∨ l.time = timeAt is k := by
+  unfold labelFor at h
+  split at h
+  · simp at h
+  · rename_i args _
+    simp only [Option.some.injEq] at h
+    subst h
+    rw [renameStart_time]
+    rcases labelAt_time (k - 1) k (prevTimeAt is k) (timeAt is k) (jumpArgs is k) with ht | ht
+    · exact .inl ht.2.1
+    · exact .inr ht.2
+
+example : emitLabels 10 20 (some (labelAt 3 10 4 20 [10])) = .ok [.label (.before 3), .rel 10] := by decide
+example : emitLabels 10 20 (some (labelAt 3 10 4 20 [10, 20])) = .ok [.rel 10, .label (.dest 4)] := by decide
+example : emitLabels 10 20 (some ⟨.dest 4, 15⟩) = .panic impossibleMsg := by decide
 
 /-- **stored scripts with jumps**: whenever the raiser produces statements, the label rules give
 every instruction its stored time back -/
@@ -312,7 +332,7 @@ the previous instruction's time for an `r` label, the destination's time otherwi
 theorem raiseFrom_label_times (is : List RInstr) (rest : List RInstr) (prev : Int32) (k : Nat) (os : List Out)
     (h : raiseFrom is prev k rest = .ok os) :
     labelTimesFrom prev os =
-      (List.range' k (rest.length + 1)).filterMap (fun j => (labelFor is j).map (fun l => (l.isR, l.idx, l.time))) := by
+      (List.range' k (rest.length + 1)).filterMap (fun j => (labelFor is j).map (fun l => (l.name, l.time))) := by
   have lt_append : ∀ (a b : List Out) (p : Int32), Out.instr ∉ a →
       labelTimesFrom p (a ++ .instr :: b) = labelTimesFrom p a ++ labelTimesFrom (a.foldl stepOut p) b := by
     intro a b p; induction a generalizing p with
@@ -322,7 +342,7 @@ theorem raiseFrom_label_times (is : List RInstr) (rest : List RInstr) (prev : In
       have hn' : Out.instr ∉ os := fun hr => hn (List.mem_cons_of_mem _ hr)
       cases o with
       | instr => simp at hn
-      | label r i => simp [labelTimesFrom, stepOut, ih p hn']
+      | label n => simp [labelTimesFrom, stepOut, ih p hn']
       | abs v => simp [labelTimesFrom, stepOut, ih v hn']
       | rel d => simp [labelTimesFrom, stepOut, ih (p + d) hn']
   induction rest generalizing prev k os with
@@ -348,7 +368,7 @@ theorem raiseFrom_label_times (is : List RInstr) (rest : List RInstr) (prev : In
 
 theorem rlabel_time (is : List RInstr) (os : List Out) (h : raise is = .ok os) :
     labelTimesFrom 0 os =
-      (List.range (is.length + 1)).filterMap (fun j => (labelFor is j).map (fun l => (l.isR, l.idx, l.time))) := by
+      (List.range (is.length + 1)).filterMap (fun j => (labelFor is j).map (fun l => (l.name, l.time))) := by
   unfold raise at h
   split at h
   · simp at h
@@ -377,10 +397,12 @@ theorem raise_no_panic (is : List RInstr) (site : String) : raise is ≠ .panic 
       have hi : is[pre.length]? = some i := by simp [his]
       have htime : timeAt is pre.length = i.time := by simp [timeAt, hi]
       have h1 : emitLabels prev i.time (labelFor is pre.length) ≠ .panic site := by
-        unfold labelFor
-        split
-        · simp [emitLabels]
-        · rw [hprev, ← htime]; exact label_always_placed _ _ _ _ _ _
+        cases hl : labelFor is pre.length with
+        | none => simp [emitLabels]
+        | some l =>
+          have := labelFor_time is pre.length l hl
+          rw [htime, ← hprev] at this
+          exact label_always_placed _ _ l this site
       have h2 := ih (pre ++ [i]) i.time (by simp [his]) (by simp [prevTimeAt, hi])
       simp at h2
       split
@@ -396,31 +418,60 @@ theorem raise_no_panic (is : List RInstr) (site : String) : raise is ≠ .panic 
   · exact key is [] 0 rfl rfl
 
 example : raise [⟨0, none⟩, ⟨10, some (1, some 0)⟩, ⟨-3, some (3, none)⟩]
-    = .ok [.instr, .label true 0, .rel 10, .instr, .abs (-3), .instr, .label false 3] := by decide
+    = .ok [.instr, .label (.before 0), .rel 10, .instr, .abs (-3), .instr, .label (.dest 3)] := by decide
 
 
 /-! ### label names -/
 
-theorem labelAt_idx (pi ni : Nat) (prev next : Int32) (args : List Int32) :
-    (labelAt pi prev ni next args).idx = (if (labelAt pi prev ni next args).isR then pi else ni) := by
-  unfold labelAt; split <;> simp
+/-- which names `generate_offset_labels` can give to the label of instruction `k` -/
+theorem labelFor_name (is : List RInstr) (k : Nat) (l : Label) (h : labelFor is k = some l) :
+    (k = 0 ∧ (l.name = .start ∨ l.name = .dest 0)) ∨ (0 < k ∧ (l.name = .before (k - 1) ∨ l.name = .dest k)) := by
+  unfold labelFor at h
+  split at h
+  · simp at h
+  · rename_i args _
+    simp only [Option.some.injEq] at h
+    subst h
+    have ht := labelAt_time (k - 1) k (prevTimeAt is k) (timeAt is k) (jumpArgs is k)
+    unfold renameStart
+    split
+    · rename_i hk
+      exact .inl ⟨hk.1, .inl rfl⟩
+    · rename_i hk
+      by_cases h0 : k = 0
+      · left
+        refine ⟨h0, .inr ?_⟩
+        rcases ht with ht | ht
+        · -- an `r` label at the start would have been renamed: its time differs from the destination's
+          exfalso
+          apply hk
+          refine ⟨h0, ?_⟩
+          rw [ht.2.1]
+          intro heq
+          have := ht.2.2.1
+          rw [heq] at this
+          exact absurd this (by simp)
+        · rw [ht.1, h0]
+      · right
+        refine ⟨by omega, ?_⟩
+        rcases ht with ht | ht
+        · exact .inl ht.1
+        · exact .inr ht.1
 
-/-- distinct destinations `k1 ≠ k2` get distinct label names (`r` flag + printed index, which by
-`labelAt_idx` is `k - 1` for an `r` label and `k` otherwise), **except** that the `r` label of the
-start of the script and the `r` label of instruction 1 are both called `label_0r` -/
-theorem label_names (k1 k2 : Nat) (r1 r2 : Bool)
-    (h : (r1, if r1 then k1 - 1 else k1) = (r2, if r2 then k2 - 1 else k2)) :
-    k1 = k2 ∨ (r1 = true ∧ r2 = true ∧ (k1 = 0 ∧ k2 = 1 ∨ k1 = 1 ∧ k2 = 0)) := by
-  cases r1 <;> cases r2 <;> simp at h ⊢ <;> omega
+/-- **label names are unique**: two different destinations never get the same label name (the
+start-of-script `r` label is `label_startr`, so it no longer shares `label_0r` with the `r` label
+of instruction 1).  Formerly false: the stored script `[⟨10, jump to 0 @ 0⟩, ⟨20, jump to 1 @ 10⟩]`
+gave `label_0r` twice and the printed script did not recompile (finding
+`r-label-name-collision-at-script-start`, fixed). -/
+theorem label_names (is : List RInstr) (k1 k2 : Nat) (l1 l2 : Label)
+    (h1 : labelFor is k1 = some l1) (h2 : labelFor is k2 = some l2) (hn : l1.name = l2.name) : k1 = k2 := by
+  have n1 := labelFor_name is k1 l1 h1
+  have n2 := labelFor_name is k2 l2 h2
+  rcases n1 with ⟨e1, a1 | a1⟩ | ⟨e1, a1 | a1⟩ <;> rcases n2 with ⟨e2, a2 | a2⟩ | ⟨e2, a2 | a2⟩ <;>
+    rw [a1, a2] at hn <;> simp at hn <;> omega
 
-/-- **The decompiler can emit the same label name twice** (the full "labels are unique" statement
-is false): first instruction at time 10 with a jump to the start of the script at time 0, second
-instruction at time 20 jumping to itself with time 10.  Both destinations are named `label_0r`;
-the printed script does not recompile ("duplicate label"), or, with loop recovery on, recompiles
-to different jumps.  Replayed on the implementation by the harness (signature
-`r-label-name-collision-at-script-start`). -/
-theorem rlabel_name_collision :
-    raise [⟨10, some (0, some 0)⟩, ⟨20, some (1, some 10)⟩]
-      = .ok [.label true 0, .rel 10, .instr, .label true 0, .rel 10, .instr] := by decide
+-- the former witness of the collision: the two labels now have different names
+example : raise [⟨10, some (0, some 0)⟩, ⟨20, some (1, some 10)⟩]
+      = .ok [.label .start, .rel 10, .instr, .label (.before 0), .rel 10, .instr] := by decide
 
 end TruthModel.C13
